@@ -1,7 +1,8 @@
 (* Properties/C09.v - host parsing and serialization.  Only statements, closed by `exact`.
    Lemmas: Proofs/C09_V6.v, C09_V6rt.v, C09_V6form.v, C09_V4.v, C09_Wf.v, C09_Host.v. *)
 From RU Require Import Base.Prelude Base.Utf8 Model.AsciiSet Gen.Tables Model.PercentEncoding Model.HostT Model.Host
-  Spec.WhatwgHost Proofs.C09_V6 Proofs.C09_V6rt Proofs.C09_V6form Proofs.C09_V4 Proofs.C09_Wf Proofs.C09_Host.
+  Spec.WhatwgHost Proofs.C09_V6 Proofs.C09_V6rt Proofs.C09_V6form Proofs.C09_V4 Proofs.C09_Wf Proofs.C09_Host
+  Proofs.C09_V4spec Proofs.C09_V6spec Proofs.C09_Reject.
 
 (* ---- the regenerated literal sets are the Standard's ---- *)
 Theorem C09_tables :
@@ -126,15 +127,64 @@ Check C09_domain : forall idna input d, host_parse idna input = Ok (HDomain d) -
       Forall (fun c => c < 128 /\ is_upper c = false /\ Spec.forbidden_domain_code_point c = false) d).
 Print Assumptions C09_domain.
 
-(* ---- every host that ends in a number goes to the IPv4 parser and is an address or an error ---- *)
-Theorem C09_ipv4_reject_partial : forall idna input dom, starts_with 91 input = false ->
+(* ---- every host that ends in a number is the address the Standard's IPv4 parser computes, or is
+   rejected (never a domain) ---- *)
+Theorem C09_ipv4_reject : forall idna input dom, starts_with 91 input = false ->
   idna (decode (utf8_encode input)) = Some dom -> ends_in_a_number dom = true ->
-  host_parse_x idna input = xr_map HIpv4 (parse_ipv4addr dom).
-Proof. exact parse_number_not_domain. Qed.
-Check C09_ipv4_reject_partial : forall idna input dom, starts_with 91 input = false ->
+  host_parse idna input =
+  match Spec.ipv4_parse dom with Some a => Ok (HIpv4 a) | None => Err InvalidIpv4Address end.
+Proof. exact number_host_spec. Qed.
+Check C09_ipv4_reject : forall idna input dom, starts_with 91 input = false ->
   idna (decode (utf8_encode input)) = Some dom -> ends_in_a_number dom = true ->
-  host_parse_x idna input = xr_map HIpv4 (parse_ipv4addr dom).
-Print Assumptions C09_ipv4_reject_partial.
+  host_parse idna input =
+  match Spec.ipv4_parse dom with Some a => Ok (HIpv4 a) | None => Err InvalidIpv4Address end.
+Print Assumptions C09_ipv4_reject.
+
+(* ---- the IPv4 side of the model is the Standard's, on all inputs (parse_ipv4addr "" panics in the
+   Rust - numbers.pop().expect - and is never called with it) ---- *)
+Theorem C09_ipv4_spec :
+  (forall s, ends_in_a_number s = Spec.ends_in_a_number s)
+  /\ (forall s, s <> [] -> parse_ipv4addr s = match Spec.ipv4_parse s with Some a => XOk a | None => XErr InvalidIpv4Address end)
+  /\ parse_ipv4addr [] = XPanic 314.
+Proof. exact (conj ends_in_a_number_spec (conj parse_ipv4addr_spec parse_ipv4addr_empty)). Qed.
+Check C09_ipv4_spec :
+  (forall s, ends_in_a_number s = Spec.ends_in_a_number s)
+  /\ (forall s, s <> [] -> parse_ipv4addr s = match Spec.ipv4_parse s with Some a => XOk a | None => XErr InvalidIpv4Address end)
+  /\ parse_ipv4addr [] = XPanic 314.
+Print Assumptions C09_ipv4_spec.
+
+(* ---- IPv6 against the Standard.  Full statement: serializer and parser equal the Standard's on all
+   inputs.  Proved: the serializer on all addresses; the parser inverts the Standard's serializer; parser
+   equality on all strings of length <= 5 over {1 f F : . 2 5 g} (by computation). ---- *)
+Definition C09_ipv6_spec_statement : Prop :=
+  (forall a, length a = 8%nat /\ Forall (fun x => x < 65536) a -> write_ipv6 a = Spec.ipv6_serialize a)
+  /\ (forall s, usv_list s -> parse_ipv6addr (utf8_encode s) =
+                match Spec.ipv6_parse s with Some a => XOk a | None => XErr InvalidIpv6Address end).
+Theorem C09_ipv6_spec_partial :
+  (forall a, length a = 8%nat /\ Forall (fun x => x < 65536) a -> write_ipv6 a = Spec.ipv6_serialize a)
+  /\ (forall a, length a = 8%nat /\ Forall (fun x => x < 65536) a -> parse_ipv6addr (Spec.ipv6_serialize a) = XOk a)
+  /\ (forall s, In s (all_strings [49; 102; 70; 58; 46; 50; 53; 103] 5) ->
+        parse_ipv6addr s = match Spec.ipv6_parse s with Some a => XOk a | None => XErr InvalidIpv6Address end).
+Proof. exact (conj write_ipv6_spec (conj parse_spec_serialize ipv6_parse_spec_bounded)). Qed.
+Check C09_ipv6_spec_partial :
+  (forall a, length a = 8%nat /\ Forall (fun x => x < 65536) a -> write_ipv6 a = Spec.ipv6_serialize a)
+  /\ (forall a, length a = 8%nat /\ Forall (fun x => x < 65536) a -> parse_ipv6addr (Spec.ipv6_serialize a) = XOk a)
+  /\ (forall s, In s (all_strings [49; 102; 70; 58; 46; 50; 53; 103] 5) ->
+        parse_ipv6addr s = match Spec.ipv6_parse s with Some a => XOk a | None => XErr InvalidIpv6Address end).
+Print Assumptions C09_ipv6_spec_partial.
+
+(* ---- no panic, no fuel exhaustion.  Full statement: for every input of both entry points.  Proved:
+   for every input that is not a '['-led literal (the IPv6 parser's index and fuel bounds are covered
+   only by the correspondence run, where the model reports PANIC / FUEL as outcomes). ---- *)
+Definition C09_total_statement : Prop := total_statement.
+Theorem C09_total_partial :
+  (forall idna input, starts_with 91 input = false -> no_panic (host_parse_x idna input))
+  /\ (forall input, starts_with 91 input = false -> no_panic (host_parse_opaque_x input)).
+Proof. exact total_partial. Qed.
+Check C09_total_partial :
+  (forall idna input, starts_with 91 input = false -> no_panic (host_parse_x idna input))
+  /\ (forall input, starts_with 91 input = false -> no_panic (host_parse_opaque_x input)).
+Print Assumptions C09_total_partial.
 
 (* ---- opaque hosts: reject exactly the forbidden host code points, C0-control-percent-encode the rest ---- *)
 Theorem C09_opaque : forall input, usv_list input -> starts_with 91 input = false ->
